@@ -434,13 +434,18 @@ class RBE:
                 self._in_post_facts = False
         # loop variables ranging over the object's own containers
         for st in ast.walk(fn):
-            if isinstance(st, ast.For) and isinstance(st.target, ast.Name) and 'self.' in unparse(st.iter):
+            if isinstance(st, ast.For) and 'self.' in unparse(st.iter):
+                # `for k in self.F` / `for k, v in self.F.items()`: keys and values of the object's own containers alike
+                tnames = [st.target.id] if isinstance(st.target, ast.Name) else (
+                    [t.id for t in st.target.elts if isinstance(t, ast.Name)] if isinstance(st.target, (ast.Tuple, ast.List)) else [])
+                if not tnames:
+                    continue
                 if any(x is node.ast or (node.ast is not None and any(y is node.ast for y in ast.walk(x))) for x in st.body):
-                    f.own.add(st.target.id)
+                    f.own.update(tnames)
                 else:
                     for x in st.body:
                         if node.ast is not None and any(y is node.ast for y in ast.walk(x)):
-                            f.own.add(st.target.id)
+                            f.own.update(tnames)
         return f
 
     def summary(self, cls, def_cls, fn, depth=0):
